@@ -178,4 +178,20 @@ CHECKS = {
                          "spec: coq/theories/Spec/C18Spec.v (saturating counts; (open closed)* words; per-key projections)"],
         "coq_timeout": 1500,
     },
+    "C17": {
+        "extract": "C09", "driver": "c09",
+        "runs": [{"subcmd": "memrecv", "shards_quick": 8, "shards_thorough": 16, "driver_args": ["c17"]}],
+        "run_timeout_quick": 900,
+        "rule": "V lines (memory scenarios): real sender sessions (No-Code / RS28, 1..6 objects of a few blocks up to 800 blocks) through channels that keep objects "
+                "undecodable - no FDT at all with FDT-only OTI (everything cached), FDT arriving late, one symbol of every block lost (blocks accumulate), FDT instances "
+                "that never complete (many ids), small cache limits (64 B .. 4 KiB and the default), max_objects_error 0/1/3, object time-outs with real sleeps followed by "
+                "cleanup - into a real Receiver; after every event the live heap attributed to the receiver's calls (counting global allocator) is recorded. The model is "
+                "stepped on the same events (time-outs as event arguments) and compared as for C09; non-trivial = the model ledger was non-zero at some point.",
+        "level_text": "Proved for one object, for every packet/oracle: the size counter of the pre-OTI packet cache is exact and the cached bytes never exceed the cache size by more than one packet (push and FDT attach), flush/complete/error only keep or clear the cache; the failed list is trimmed to max_objects_error. The receiver-level bound C17_bounds_full (P_C17_bounds) is evaluated on the model state after every event, and the measured live heap of the implementation is checked against the model ledger (P_C17_heap) and against a bound from the configuration alone (P_C17_heap_cfg). Partial by nature: bookkeeping proved, bytes measured.",
+        "explanation": "P_C17_bounds on the model state, P_C17_heap (heap <= 3 x ledger + 1 KiB x items + 20 kB x decoders + 32 KiB) and P_C17_heap_cfg on the measured heap after every event.",
+        "assumptions": ["live heap measured with a counting global allocator around the receiver's calls (monitoring log strings subtracted)",
+                        "Instant-based time-outs are event arguments of the model; the harness sleeps for real and mirrors last-activity times",
+                        "FEC decoder internals (Reed-Solomon matrices ~13 kB per block) are an allowance of the heap bound, not modelled"],
+        "trusted_base": ["model: coq/theories/Model/ObjRecv.v, Recv.v; ledger: coq/theories/Spec/C17Spec.v"],
+    },
 }
